@@ -13,7 +13,7 @@ struct GenInput {
   int cls = 0;  // 0 valid, 1 prefix, 2 mutated, 3 random, 4 huge-header
 };
 
-inline const char* input_class_name(int c) { static const char* n[] = {"valid", "prefix", "mutated", "random", "huge-header"}; return n[c]; }
+inline const char* input_class_name(int c) { static const char* n[] = {"valid", "prefix", "mutated", "random", "huge-header", "at-string-limit"}; return n[c]; }
 
 inline std::string gen_valid_json(Rng& r, int max_depth = 5) {
   GenOpt g; g.str_mode = (int)r.below(3) == 2 ? 2 : 1; g.dup_keys = r.chance(1, 4); g.max_depth = (int)r.range(0, max_depth); g.max_width = (int)r.range(0, 6);
